@@ -466,6 +466,7 @@ Notation c_resid := (c_resid F zero add mul sub).
 Notation c_prolong := (c_prolong F zero add mul).
 Notation mulmatT := (mulmatT F zero add mul).
 Notation c_restrict := (c_restrict F zero add mul).
+Notation c_restrict_old := (c_restrict_old F zero add mul).
 Notation offsum := (offsum F zero add mul).
 Notation row_update := (row_update F zero one add mul sub inv).
 Notation sweep := (sweep F zero one add mul sub inv tiny).
@@ -549,11 +550,18 @@ Proof.
   - rewrite zero_like_zeros, firstn_length, Nat.min_l by lia.
     unfold Cycle.zeros. rewrite <- repeat_app. reflexivity.
 Qed.
-Lemma c_restrict_clean P fparts cparts m r bo :
-  guard_ok fparts cparts -> sumn cparts = m -> len m bo ->
-  c_restrict P fparts cparts m r bo = mulmatT P r m.
+Lemma c_restrict_clean P m r bo : len m bo -> c_restrict P m r bo = mulmatT P r m.
 Proof.
-  unfold len, Cycle.c_restrict; intros Hg Hm Hb. rewrite guard_base_zeros by (try exact Hg; congruence).
+  unfold Cycle.c_restrict; intros Hb. rewrite (zero_like_len m bo Hb).
+  apply vadd_zeros_l. apply mulmatT_len.
+Qed.
+(* the code before the fix computed the same on every layout that satisfies the partition invariant *)
+Lemma c_restrict_old_clean P fparts cparts m r bo :
+  guard_ok fparts cparts -> sumn cparts = m -> len m bo ->
+  c_restrict_old P fparts cparts m r bo = c_restrict P m r bo.
+Proof.
+  intros Hg Hm Hb. rewrite (c_restrict_clean P m r bo Hb).
+  unfold len, Cycle.c_restrict_old in *. rewrite guard_base_zeros by (try exact Hg; congruence).
   rewrite Hm. apply vadd_zeros_l. apply mulmatT_len.
 Qed.
 
@@ -695,14 +703,14 @@ Proof.
 Qed.
 
 (* ---- a concrete level satisfies the abstract interface ---- *)
-Definition clevel_wf (n m : nat) (A P : mat) (parts cparts : list nat) : Prop :=
-  mat_dims n n A /\ diag_nz n A /\ mat_dims n m P /\ guard_ok parts cparts /\ sumn cparts = m.
+Definition clevel_wf (n m : nat) (A P : mat) : Prop :=
+  mat_dims n n A /\ diag_nz n A /\ mat_dims n m P.
 
-Lemma concrete_level_ok k omega sweeps n m A P parts cparts :
-  clevel_wf n m A P parts cparts ->
-  level_ok (mkLevel n m (c_relax k A omega parts sweeps) (c_resid A) (c_restrict P parts cparts m) (c_prolong P)).
+Lemma concrete_level_ok k omega sweeps n m A P parts :
+  clevel_wf n m A P ->
+  level_ok (mkLevel n m (c_relax k A omega parts sweeps) (c_resid A) (c_restrict P m) (c_prolong P)).
 Proof.
-  intros [HA [Hd [HP [Hg Hm]]]]. destruct HA as [HAn HAr]. destruct HP as [HPn HPr].
+  intros [HA [Hd HP]]. destruct HA as [HAn HAr]. destruct HP as [HPn HPr].
   assert (HA : mat_dims n n A) by (split; assumption).
   constructor; simpl; unfold rx, rb, rt; simpl.
   - intros x b t Hx Hb Ht. apply c_relax_len; assumption.
@@ -795,7 +803,7 @@ Notation h_cycle := (h_cycle F zero one add mul sub inv tiny lapack_solve).
 Fixpoint levels_wf (cs : list clevel) (Mc : mat) (lastp : list nat) (n : nat) : Prop :=
   match cs with
   | [] => mat_dims n n Mc
-  | c :: rest => clevel_wf n (next_n rest Mc) (cl_A c) (cl_P c) (cl_parts c) (next_parts rest lastp) /\
+  | c :: rest => clevel_wf n (next_n rest Mc) (cl_A c) (cl_P c) /\
                  levels_wf rest Mc lastp (next_n rest Mc)
   end.
 (* well-formed hierarchy with n fine unknowns, as the code has it now (trans = 'T') *)
